@@ -99,6 +99,11 @@ class PE:
                 dotted = None
             if dotted in self.consts:
                 return C(self.consts[dotted])
+            if dotted in self.env:
+                v = self.env[dotted]
+                if v[0] == 'X':
+                    raise Untranslatable('%s was assigned something the translator does not understand' % dotted)
+                return v
             if isinstance(e.value, ast.Name) and e.value.id == 'np':
                 raise Untranslatable('numpy attribute %s' % e.attr)
             base = self.ev(e.value)
@@ -248,6 +253,9 @@ class PE:
             name = 'np.' + fn.attr
         if isinstance(fn, ast.Attribute) and fn.attr == 'astype' and not (isinstance(fn.value, ast.Name) and fn.value.id == 'np'):
             return self.ev(fn.value)            # elementwise: a cast does not change an integer that fits (the carrier is NumPy's business)
+        if name is None and isinstance(fn, ast.Attribute) and isinstance(fn.value, ast.Name) and fn.value.id == 'self' \
+                and fn.attr in self.consts.get('__methods__', {}):
+            name = 'self.' + fn.attr
         if name is None or e.keywords and name not in ('np.diagonal',):
             raise Untranslatable('call')
         if name == 'np.diagonal':
@@ -275,6 +283,38 @@ class PE:
             if v[0] not in ('L', 'T') or not v[1]:
                 raise Untranslatable('%s of a non-list' % name)
             return ('B', '(' + (' || ' if name.endswith('any') else ' && ').join(to_lean_bool(x) for x in v[1]) + ')')
+        if isinstance(fn, ast.Attribute) and isinstance(fn.value, ast.Name) and fn.value.id == 'self' \
+                and fn.attr in self.consts.get('__methods__', {}) and not e.keywords:
+            # a helper method of the same class: inlined like a module-level helper (attribute writes inside it are seen by the caller)
+            if self.depth > 6:
+                raise Untranslatable('helper calls nested too deep')
+            node = self.consts['__methods__'][fn.attr]
+            params = [p.arg for p in node.args.args]
+            static = any(isinstance(d, ast.Name) and d.id == 'staticmethod' for d in node.decorator_list)
+            if not static:
+                params = params[1:]
+            args_ = [self.ev(a) for a in e.args]
+            defaults = node.args.defaults
+            if len(args_) > len(params) or node.args.vararg or node.args.kwarg:
+                raise Untranslatable('call of self.%s with another signature' % fn.attr)
+            envc = dict(self.env)
+            for k_, p_ in enumerate(params):
+                if k_ < len(args_):
+                    envc[p_] = args_[k_]
+                else:
+                    d_ = defaults[k_ - (len(params) - len(defaults))] if k_ >= len(params) - len(defaults) else None
+                    if d_ is None:
+                        raise Untranslatable('missing argument %s of self.%s' % (p_, fn.attr))
+                    envc[p_] = self.ev(d_)
+            sub = self.fork(envc)
+            sub.plain_return = True
+            r = sub.run(node.body, lenient=True)
+            for k_, v_ in sub.env.items():          # attribute writes of the helper
+                if k_.startswith('self.'):
+                    self.env[k_] = v_
+            if r is None:
+                return C(None)
+            return r
         if name in self.funcs and not e.keywords:
             # a module-level helper with a translatable body is inlined (its assignments become `let`s of the caller)
             if self.depth > 6:
@@ -321,7 +361,7 @@ class PE:
         """record `name = v`; symbolic scalars become a Lean `let` so that the generated text follows the source."""
         if v[0] in ('B', 'I'):
             self.shared['n'] += 1
-            ln = '%s_%d' % (name.strip('_') or 'v', self.shared['n'])
+            ln = '%s_%d' % (name.replace('self.', '').strip('_') or 'v', self.shared['n'])
             self.lets.append((ln, 'Bool' if v[0] == 'B' else 'Int', v[1]))
             v = (v[0], ln)
         self.env[name] = v
@@ -331,6 +371,8 @@ class PE:
         for n in ast.walk(node):
             if isinstance(n, ast.Name) and isinstance(n.ctx, ast.Store):
                 self.env.pop(n.id, None)
+            elif isinstance(n, ast.Attribute) and isinstance(n.ctx, ast.Store) and isinstance(n.value, ast.Name) and n.value.id == 'self':
+                self.env['self.' + n.attr] = ('X',)
             elif isinstance(n, (ast.FunctionDef, ast.ClassDef)):
                 self.env.pop(n.name, None)
 
@@ -338,6 +380,14 @@ class PE:
         if len(st.targets) != 1:
             raise Untranslatable('multiple assignment targets')
         tg = st.targets[0]
+        if isinstance(tg, ast.Attribute) and isinstance(tg.value, ast.Name) and tg.value.id == 'self':
+            # an attribute of the object itself: remembered (later reads of self.<attr> see it); unknown when not translatable
+            key = 'self.' + tg.attr
+            try:
+                self.bind(key, self.ev(st.value))
+            except Untranslatable:
+                self.env[key] = ('X',)
+            return
         v = self.ev(st.value)
         if isinstance(tg, ast.Name):
             self.bind(tg.id, v)
@@ -397,7 +447,9 @@ class PE:
                             ra = a.run(list(st.body), lenient=True); rb = b.run(list(st.orelse), lenient=True)
                         except Untranslatable:
                             ra = rb = 'fail'
-                        stored = {n.id for n in ast.walk(st) if isinstance(n, ast.Name) and isinstance(n.ctx, ast.Store)}
+                        stored = {n.id for n in ast.walk(st) if isinstance(n, ast.Name) and isinstance(n.ctx, ast.Store)} | \
+                                 {'self.' + n.attr for n in ast.walk(st) if isinstance(n, ast.Attribute) and isinstance(n.ctx, ast.Store)
+                                  and isinstance(n.value, ast.Name) and n.value.id == 'self'}
                         if ra is not None or rb is not None:
                             self.poison(st)
                         else:
@@ -406,13 +458,17 @@ class PE:
                                 same = va is not None and vb is not None and (va == vb or (self.let_term(va) is not None and self.let_term(va) == self.let_term(vb)))
                                 if same:
                                     self.env[nm] = va
-                                else:
+                                elif nm.startswith('self.') and (va is not None or vb is not None):
+                                    self.env[nm] = ('X',)
+                                elif not nm.startswith('self.'):
                                     self.env.pop(nm, None)
                     continue
                 if is_const(t):
                     return self.run(list(st.body if t[1] else st.orelse) + stmts[i + 1:], lenient=True)
-                if not any((isinstance(n, ast.Name) and isinstance(n.ctx, ast.Store)) or isinstance(n, ast.Return) for n in ast.walk(st)):
-                    continue        # the branch only writes attributes / items of objects: no effect on the rules read here
+                if not any((isinstance(n, ast.Name) and isinstance(n.ctx, ast.Store)) or isinstance(n, ast.Return) or
+                           (isinstance(n, ast.Attribute) and isinstance(n.ctx, ast.Store) and isinstance(n.value, ast.Name) and n.value.id == 'self')
+                           for n in ast.walk(st)):
+                    continue        # the branch only writes items of other objects (self.status[...]): no effect on the rules read here
                 rest = stmts[i + 1:]
                 a = self.fork(); ra = a.run(list(st.body) + rest, lenient=True)
                 b = self.fork(); rb = b.run(list(st.orelse) + rest, lenient=True)
@@ -595,6 +651,8 @@ def generate(repo=None):
         otree, meth = None, {}
         problems['objects.py'] = '%s: %s' % (type(e).__name__, e)
 
+    consts = dict(consts, __methods__=meth)
+
     def names_after(body, names):
         """the statements of `body` followed by a synthetic `return (names...)`."""
         r = ast.Return(value=ast.Tuple(elts=[ast.Name(id=n, ctx=ast.Load()) for n in names], ctx=ast.Load()))
@@ -612,7 +670,8 @@ def generate(repo=None):
                                                                        for n in ast.walk(st))), default=None)
             if last is None:
                 raise Untranslatable('%s not assigned in Fxp.%s' % (names, method))
-            pe = PE({'self': ('O', 'x')}, consts, funcs)
+            # the limits as a function of the sizes the object has at that point: no size argument is given
+            pe = PE({'self': ('O', 'x'), 'signed': C(None), 'n_word': C(None), 'n_frac': C(None), 'n_int': C(None), 'dtype': C(None)} if method == 'resize' else {'self': ('O', 'x')}, consts, funcs)
             r = pe.run(names_after(node.body[:last + 1], names), lenient=True)
             if r is None:
                 raise Untranslatable('no value')
@@ -687,6 +746,36 @@ def generate(repo=None):
             return emit('lshiftWord', '(xs : Bool) (xw xi xf : Int) (mb n : Int)', pe, r[1][0],
                         '`n_word` of `Fxp.__lshift__` in expand mode (`mb` = the largest `ceil(log2(|code| + 0.5))` over the codes)')
         attempt('lshiftWord', flshift)
+
+    # the size resolution of resize(): (signed, n_word, n_frac, n_int) after the call, for each pattern of given arguments
+    if meth:
+        for pat in range(16):
+            def fres(pat=pat):
+                node = meth.get('resize')
+                if node is None:
+                    raise Untranslatable('Fxp.resize not found')
+                given = [(pat >> 3) & 1, (pat >> 2) & 1, (pat >> 1) & 1, pat & 1]     # signed, n_word, n_frac, n_int
+                env = {'self': ('O', 'x'),
+                       'signed': ('B', 's') if given[0] else C(None), 'n_word': ('I', 'w') if given[1] else C(None),
+                       'n_frac': ('I', 'f') if given[2] else C(None), 'n_int': ('I', 'i') if given[3] else C(None),
+                       'dtype': C(None), 'restore_val': C(True)}
+                pe = PE(env, consts, funcs)
+                ret = ast.Return(value=ast.Tuple(elts=[ast.Attribute(value=ast.Name(id='self', ctx=ast.Load()), attr=a, ctx=ast.Load())
+                                                       for a in ('signed', 'n_word', 'n_frac', 'n_int')], ctx=ast.Load()))
+                ret._synthetic = True; ret.lineno = 0
+                # up to (and including) the statement that recomputes self.n_int
+                last = max((k for k, st in enumerate(node.body) if any(isinstance(n, ast.Attribute) and isinstance(n.ctx, ast.Store) and n.attr == 'n_int'
+                                                                     for n in ast.walk(st))), default=None)
+                if last is None:
+                    raise Untranslatable('self.n_int is not assigned in resize')
+                r = pe.run(list(node.body[:last + 1]) + [ret], lenient=True)
+                if r is None or r[0] != 'T':
+                    raise Untranslatable('no sizes')
+                name = 'resizeSizes_%d%d%d%d' % tuple(given)
+                return emit(name, '(xs : Bool) (xw xi xf : Int) (s : Bool) (w f i : Int)', pe, r,
+                            '`(self.signed, self.n_word, self.n_frac, self.n_int)` after `resize(%s)` on an object of sizes (xs, xw, xf)'
+                            % ', '.join(n for n, g in zip(('signed=s', 'n_word=w', 'n_frac=f', 'n_int=i'), given) if g))
+            attempt('resizeSizes_%d%d%d%d' % ((pat >> 3) & 1, (pat >> 2) & 1, (pat >> 1) & 1, pat & 1), fres)
 
     # ------------------------------------------------------------------------------------------ Config setters
     def fvalid(key):
